@@ -6,8 +6,8 @@ import itertools
 
 from ..mon import Reach
 from ..ref_sem import Lang, AModel
-from ..result import Budget, digest
-from ..stream import gen_case, Built, shrink_case, corelang_spec
+from ..result import Budget, digest, safe
+from ..stream import TooExpensive, gen_case, Built, shrink_case, corelang_spec
 from ..gen_lang import gen_language, Cfg
 from ..gen_model import MCfg
 
@@ -226,7 +226,7 @@ def check_overapprox(built, graph, res, count=True):
     return None
 
 
-def check_case(case, res, count=True):
+def _check_case(case, res, count=True):
     from maltoolbox.language import LanguageGraph
     lang = Lang(case['spec'])
     try:
@@ -250,12 +250,18 @@ def check_case(case, res, count=True):
         try:
             built = Built(case, attackers=False)
             graph = built.attack_graph()
+        except TooExpensive:
+            res.count('skipped:too-expensive')
+            return None
         except Exception as exc:
             return ('build:raised-%s' % type(exc).__name__, 'building model / attack graph raised %r' % (exc,))
         first = check_overapprox(built, graph, res, count)
         if first:
             return first
     return None
+
+
+check_case = safe(_check_case)
 
 
 def run(rng, res, tier, shard, nshards):
